@@ -56,11 +56,13 @@ def keysOf (prop : String) : List String :=
 
 def clausesOf (prop : String) : List String :=
   if prop == "C04" then ["get_only_put", "get_returns_stored_until_pruned", "returned_bytes_stable", "put_error"]
-  else if prop == "C05" then ["counter_ge_held", "held_le_cap", "prune_frees_5pct", "farthest_first", "put_error", "counter_ge_held_concurrent"]
+  else if prop == "C05" then ["counter_ge_held", "held_le_cap", "prune_frees_5pct", "farthest_first", "put_error", "counter_ge_held_concurrent",
+    "counter_ge_held_put_during_prune_sync", "put_returns"]
   else if prop == "C06" then ["retained_within_radius", "radius_antitone", "refusal_exact", "radius_changes_only_by_own_prune"]
   else if prop == "C17" then ["open_radius_max_when_empty", "counter_ge_held"]
   else ["get_only_put", "get_returns_stored_until_pruned", "returned_bytes_stable", "put_error", "counter_ge_held", "held_le_cap", "prune_frees_5pct",
-        "farthest_first", "retained_within_radius", "radius_antitone", "refusal_exact", "open_radius_max_when_empty", "radius_changes_only_by_own_prune"]
+        "farthest_first", "retained_within_radius", "radius_antitone", "refusal_exact", "open_radius_max_when_empty", "radius_changes_only_by_own_prune",
+        "counter_ge_held_put_during_prune_sync", "put_returns"]
 
 def stepAll (d : DS) (toks : List String) (impl : String) : DS × Res :=
   let it := words impl
@@ -132,6 +134,11 @@ def stepAll (d : DS) (toks : List String) (impl : String) : DS × Res :=
     let mx := hex64 maxRadius
     let m := s!"same=1 radiusB={mx} lateput=ok fresh={mx}"
     (d, { model := m, monitor := if impl == m then [] else ["radius_changes_only_by_own_prune"], tags := ["twostore", "prunedA" ++ kv toks "prunedA"] })
+  | some "concprune" =>
+    -- put B runs while put A waits in the fsync of its pruning batch: the counter must still cover what is held
+    let mon := (if kvNat it "persisted" < kvNat it "held" then ["counter_ge_held_put_during_prune_sync"] else [])
+      ++ (if it.head? == some "a-stuck" then ["put_returns"] else [])
+    (d, { model := "-", monitor := mon, tags := ["concprune", it.headD "?"], skipCompare := true })
   | some "conc" =>
     -- two puts as the atomic steps the code has; the schedule is an input (forced through the yield hook)
     let ths : List Conc.Thread := [{ key := 1, len := kvNat toks "lenA", snap := none }, { key := 2, len := kvNat toks "lenB", snap := none }]
